@@ -142,7 +142,7 @@ def standin_scipy(tier, seed):
     uniq = {v["key"]: v for v in violations}
     return dict(evaluations=evals, distinct_nontrivial=len(distinct),
                 rule="one evaluation = one personalisation (alignment, shapes, finiteness) or one subject's objective comparison; distinct = (model kind, fitted|loaded)",
-                samples=samples, violations=list(uniq.values())[:8],
+                samples=samples, violations=list(uniq.values())[:60],
                 bound=dict(model_kinds=len(kinds), origins=2, individuals=5, seed=seed, exhaustive=False))
 
 
@@ -262,7 +262,7 @@ def standin_sampling(tier, seed):
     uniq = {v["key"]: v for v in violations}
     return dict(evaluations=evals, distinct_nontrivial=len(distinct),
                 rule="one evaluation = one sampling-based personalisation with recorded chain; distinct = (model, origin, algorithm, settings)",
-                samples=samples, violations=list(uniq.values())[:8],
+                samples=samples, violations=list(uniq.values())[:60],
                 bound=dict(model_kinds=len(kinds), settings=len(settings_list), individuals=5, seed=seed, exhaustive=False))
 
 
